@@ -171,15 +171,13 @@ func (s *Stream) Close() error {
 	return s.close(StreamClosed)
 }
 func (s *Stream) close(status int32) error {
-	if atomic.LoadInt32(&s.status) != StreamOK {
-		return nil
-	}
-
 	// 修改流状态
 	if status != StreamReplaced {
 		status = StreamClosed
 	}
-	atomic.StoreInt32(&s.status, status)
+	if !atomic.CompareAndSwapInt32(&s.status, StreamOK, status) {
+		return nil // 已经关闭
+	}
 	verifPoint("close.marked", s)
 
 	// 已关闭的流不能再被查到: whoever closes the stream (administrative delete,
@@ -194,15 +192,21 @@ func (s *Stream) close(status int32) error {
 	}
 
 	// 关闭 flv 消费者和 Muxer
+	// the sweeps hold the join locks: a consumer that is joining right now is either
+	// registered before the sweep (and swept) or sees the closed status afterwards
+	s.flvJoinLock.Lock()
 	s.flvConsumptions.RemoveAndCloseAll()
 	s.flvCache.Reset()
+	s.flvJoinLock.Unlock()
 	s.flvMuxer.Close()
 
 	// 关闭 av.Frame 转换器
 	s.rtpDemuxer.Close()
 
+	s.joinLock.Lock()
 	s.consumptions.RemoveAndCloseAll()
 	s.cache.Reset()
+	s.joinLock.Unlock()
 	return nil
 }
 
@@ -301,6 +305,14 @@ func (s *Stream) startConsume(consumer Consumer, packetType PacketType, extra st
 	// caches and broadcasts: a packet published meanwhile is neither lost to the
 	// new consumer nor delivered to it twice
 	joinLock.Lock()
+	if atomic.LoadInt32(&s.status) != StreamOK {
+		// 流已经结束: the consumer is not registered; its delivery goroutine starts
+		// closed, so it detaches and closes the consumer (its connection) at once
+		joinLock.Unlock()
+		c.closed = true
+		go c.consume()
+		return c.cid
+	}
 	if useGopCache {
 		c.sendGop(cache) // 新消费者，先发送gop缓存
 	}
